@@ -22,7 +22,21 @@ theorem message_roundtrip (h : Header) (gs : List Group) (hc : mapsCanonical gs 
 
 /-- the messages of C01's domain satisfy the hypothesis -/
 theorem domain_of_C01 (gs : List Group) (hw : wfMsg gs = true) : mapsCanonical gs = true := by
-  sorry
+  unfold wfMsg at hw
+  rw [Bool.and_eq_true] at hw
+  unfold mapsCanonical
+  rw [List.all_eq_true]
+  intro g hg
+  have hgw := List.all_eq_true.mp hw.2 g hg
+  unfold wfGroupC at hgw
+  rw [Bool.and_eq_true, Bool.and_eq_true] at hgw
+  rw [Bool.and_eq_true, List.all_eq_true]
+  refine ⟨hgw.1.2, ?_⟩
+  intro p hp
+  have hpw := List.all_eq_true.mp hgw.2 p hp
+  unfold wfAttrC at hpw
+  rw [Bool.and_eq_true] at hpw
+  exact hpw.2
 
 /-- the payload is not part of the JSON value: the top-level object has exactly the two other fields -/
 theorem payload_not_serialised (h : Header) (gs : List Group) :
